@@ -169,7 +169,7 @@ def handle (ws : List String) : String :=
       (match ps.mapM parseFloat? with
        | none => "err bad-number"
        | some xs =>
-         match convertMacro (1e-10 : Float) 1e-14 (if mn == "hex" then "rhp" else mn) xs with
+         match convertMacro (1e-10 : Float) 1e-14 (if mn == "hex" then "rhp" else mn) xs (fun x => x.toUInt64.toNat) with
          | none => "ok none"
          | some coll => "ok " ++ " ".intercalate (coll.map fun (t, side) =>
              s!"{t.kind.toString}:{side}:" ++ ",".intercalate (t.ps.map fun v => toString v.toBits)))
